@@ -136,6 +136,16 @@ func (g *vfGen) genC12() {
 			g.emit(vfOp("decl", "xml", []byte(l), []byte(xdoc), len(lead)+len(xd)+2))
 		}
 	}
+	// XML labels outside ASCII: upper-case letters of other scripts, runes whose lower case is ASCII or longer than
+	// they are, title case, invalid UTF-8 (lower-cased by strings.ToLower: one U+FFFD per invalid byte)
+	for _, l := range append(append([]string{}, vfLetterLabels...), "\u00c9\u00c0", "\u03a3\u0391\u03a3", "\u212aOI8-R", "\u0130SO-8859-1", "\xff", "\u023a\u023e", "\u01c5", "\U00010400",
+		"A\xffB", "\xed\xa0\x80", "\xc3", "CAF\u00c9", "\u1e9e", "x\u00a0Y") {
+		for _, q := range []string{"\"", "'"} {
+			xdoc := "<?xml version=" + q + "1.0" + q + " encoding=" + q + l + q + "?><r/>"
+			g.emit(vfOp("cs", "xml", []byte(xdoc)))
+			g.emit(vfOp("walk", []byte(xdoc), 0))
+		}
+	}
 	// declarations behind a prologue longer than the default limit: examined with no limit or a larger one
 	for i := 0; i < g.pick(30, 600); i++ {
 		l := g.label()
